@@ -302,6 +302,13 @@ fn method_estimators(c: &Case) -> Result<(), Fail> {
                 let got = call(|| s2.get_jaccard_index_estimate(&other).ok());
                 ensure!(got == Res::Val(e), "SuperMinHash2::get_jaccard_index_estimate on {} against {}: returned {:?}, expected exactly {:e} (= equal positions / length, length {})", name, what, got, e, m);
             }
+            // strict prefixes borrowed from the sketcher's own signature (not copies): a length mismatch all the same
+            for len in [m - 1, m / 2, 0] {
+                if len < m {
+                    let got = call(|| s1.get_jaccard_index_estimate(&s1.get_hsketch()[..len]).ok());
+                    ensure!(!matches!(got, Res::Val(_)), "SuperMinHash::get_jaccard_index_estimate on {} given the first {} of its own {} sketch values (a borrowed prefix): a sketch of another length was accepted and gave {:?}", name, len, m, got);
+                }
+            }
             let own1 = s1.get_hsketch().clone();
             let mut used1 = SuperMinHash::<f64, u64, FnvHasher>::new(m, Default::default());
             used1.sketch_slice(&items_b).unwrap();
